@@ -1393,6 +1393,132 @@ def o_scanline(mir, tier, seed):
     return dict(theory='Real (linear); coordinates arbitrary; any / filter_map / min_by modelled with std semantics (first minimum wins), partial_cmp total on the reals', functions=['interior_point::polygon_interior_point_with_segment_length (prefix up to the sweep)', 'its closures #0-#2'], paths=npaths, status=st, info=info, model=None, replay=('interior_point_scan_line', ''))
 
 
+@obligation('C07', 'distance_dispatch_points_lines_polygons', 'the glue of six Euclidean distance impls, geometry parts opaque, 0-2 holes, 1-3 segments: Point-Polygon (0 if the shell is empty or they intersect, else the minimum over every hole ring and every shell segment), Line-Line (0 if they intersect, else the minimum of the four end-point distances, each to the OTHER line), Line-LineString (minimum over every segment), Line-Polygon (0 if they intersect, else minimum over shell and every hole), LineString-LineString (0 / ring distance), LineString-Polygon (0 / holes when inside the shell / shell) [intersects, ring_contains_coord, the nested distance impls, line_segment_distance, nearest_neighbour_distance uninterpreted; F::max_value() dominates]')
+def o_dispatch2(mir, tier, seed):
+    from mir2smt import SliceIter
+    T = RealTheory()
+    bad, assume, npaths = [], [], 0
+    D = 'euclidean::distance::<impl at [^>]*>::distance'
+
+    def ident(v):
+        v = deref(v)
+        if isinstance(v, list) and len(v) == 2 and isinstance(v[1], tuple) and v[1][0] == 'ring':
+            return v[1][1]
+        if isinstance(v, list) and len(v) == 2 and z3.is_expr(v[0]):
+            return str(v[0])
+        if isinstance(v, list) and len(v) == 1:
+            return ident(v[0])
+        if isinstance(v, list) and len(v) == 2:
+            return 'L(%s,%s)' % (ident(v[0]), ident(v[1]))
+        raise Untranslatable('unidentifiable value %r' % (v,))
+
+    def world(tag):
+        vals, inter, cont = {}, {}, {}
+
+        def dist(ip, d):
+            key = tuple(sorted((ident(d[-2]), ident(d[-1]))))
+            return vals.setdefault(key, T.var('d_%s_%d' % (tag, len(vals))))
+
+        def lsd(ip, d):
+            key = tuple(sorted((ident(d[0]), 'L(%s,%s)' % (ident(d[1]), ident(d[2])))))
+            return vals.setdefault(key, T.var('d_%s_%d' % (tag, len(vals))))
+
+        def isect(ip, d):
+            return inter.setdefault('any', z3.Bool('intersects_' + tag))
+
+        def rcc(ip, d):
+            key = (ident(d[0]), ident(d[1]))
+            return cont.setdefault(key, z3.Bool('contains_%s_%d' % (tag, len(cont))))
+        uf = {'re:<euclidean::Euclidean as (algorithm::)?line_measures::distance::Distance<.*>>::distance': dist,
+              're:(geo_types::)?private_utils::line_segment_distance::<.*>': lsd,
+              're:(euclidean::distance::)?nearest_neighbour_distance::<\\w+>': dist,
+              're:<geo_types::\\w+<F> as (algorithm::)?intersects::Intersects(<.*>)?>::intersects': isect,
+              're:(euclidean::distance::)?ring_contains_coord::<\\w+>': rcc,
+              're:geo_types::Polygon::<\\w+>::exterior': lambda ip, d: d[0][0],
+              're:geo_types::Polygon::<\\w+>::interiors': lambda ip, d: d[0][1],
+              're:geo_types::LineString::<\\w+>::lines': lambda ip, d: SliceIter([[a, b] for a, b in zip(deref(d[0])[0][:-1], deref(d[0])[0][1:])]),
+              're:geo_types::Line::<\\w+>::start_point': lambda ip, d: [list(deref(d[0])[0])],
+              're:geo_types::Line::<\\w+>::end_point': lambda ip, d: [list(deref(d[0])[1])]}
+        return vals, inter, cont, uf, dist, lsd, rcc
+
+    def ring(name, n):
+        return [[coord(T, '%s_v%d_' % (name, i)) for i in range(n)], ('ring', name)]
+
+    def finish(tag, outs, want, vals, ip):
+        mx = getattr(ip, 'max_value', None)
+        for v in vals.values():
+            assume.append(v >= 0)
+            if mx is not None:
+                assume.append(mx >= v)
+        bad.append(z3.Not(z3.Or([pc for pc, _ in outs])))
+        for pc, r in outs:
+            bad.append(z3.And(pc, deref(r) != want))
+        return len(outs)
+
+    def I(inter, tag):
+        return inter.setdefault('any', z3.Bool('intersects_' + tag))
+    # Point - Polygon
+    for nh in (0, 1, 2):
+        for ns in (0, 2, 4):
+            tag = 'ptpoly_%d_%d' % (nh, ns)
+            vals, inter, cont, uf, dist, lsd, rcc = world(tag)
+            ip = Interp(mir, T, EXTRA, uf)
+            pt = [coord(T, 'P_' + tag)]
+            poly = [ring('S_' + tag, ns), [ring('H%d_%s' % (i, tag), 3) for i in range(nh)]]
+            outs = ip.call_fn(mir.find('geo', D, sig=r'_2: &geo_types::Point<F>, _3: &geo_types::Polygon<F>'), [('e',), Ref(lambda pt=pt: pt), Ref(lambda poly=poly: poly)], z3.BoolVal(True))
+            cands = [dist(None, [pt, h]) for h in poly[1]] + [lsd(None, [pt[0], a, b]) for a, b in zip(poly[0][0][:-1], poly[0][0][1:])]
+            mx = getattr(ip, 'max_value', None)
+            want = T.const(0) if ns == 0 else z3.If(I(inter, tag), T.const(0), zmin(cands))
+            npaths += finish(tag, outs, want, vals, ip)
+    # Line - Line
+    tag = 'll'
+    vals, inter, cont, uf, dist, lsd, rcc = world(tag)
+    ip = Interp(mir, T, EXTRA, uf)
+    la, lb = [coord(T, 'A0'), coord(T, 'A1')], [coord(T, 'B0'), coord(T, 'B1')]
+    outs = ip.call_fn(mir.find('geo', D, sig=r'_2: &geo_types::Line<F>, _3: &geo_types::Line<F>'), [('e',), Ref(lambda: la), Ref(lambda: lb)], z3.BoolVal(True))
+    want = z3.If(I(inter, tag), T.const(0), zmin([dist(None, [[la[0]], lb]), dist(None, [[la[1]], lb]), dist(None, [[lb[0]], la]), dist(None, [[lb[1]], la])]))
+    npaths += finish(tag, outs, want, vals, ip)
+    # Line - LineString
+    for ns in (2, 3, 4):
+        tag = 'lls_%d' % ns
+        vals, inter, cont, uf, dist, lsd, rcc = world(tag)
+        ip = Interp(mir, T, EXTRA, uf)
+        la, ls = [coord(T, 'A0' + tag), coord(T, 'A1' + tag)], ring('LS_' + tag, ns)
+        outs = ip.call_fn(mir.find('geo', D, sig=r'_2: &geo_types::Line<F>, _3: &geo_types::LineString<F>'), [('e',), Ref(lambda la=la: la), Ref(lambda ls=ls: ls)], z3.BoolVal(True))
+        want = zmin([dist(None, [la, [a, b]]) for a, b in zip(ls[0][:-1], ls[0][1:])])
+        npaths += finish(tag, outs, want, vals, ip)
+    # Line - Polygon, LineString - Polygon
+    for nh in (0, 1, 2):
+        tag = 'lpoly_%d' % nh
+        vals, inter, cont, uf, dist, lsd, rcc = world(tag)
+        ip = Interp(mir, T, EXTRA, uf)
+        la = [coord(T, 'A0' + tag), coord(T, 'A1' + tag)]
+        poly = [ring('S_' + tag, 4), [ring('H%d_%s' % (i, tag), 3) for i in range(nh)]]
+        outs = ip.call_fn(mir.find('geo', D, sig=r'_2: &geo_types::Line<F>, _3: &geo_types::Polygon<F>'), [('e',), Ref(lambda la=la: la), Ref(lambda poly=poly: poly)], z3.BoolVal(True))
+        want = z3.If(I(inter, tag), T.const(0), zmin([dist(None, [la, r_]) for r_ in [poly[0]] + poly[1]]))
+        npaths += finish(tag, outs, want, vals, ip)
+        tag = 'lspoly_%d' % nh
+        vals, inter, cont, uf, dist, lsd, rcc = world(tag)
+        ip = Interp(mir, T, EXTRA, uf)
+        ls = ring('LS_' + tag, 3)
+        poly = [ring('S_' + tag, 4), [ring('H%d_%s' % (i, tag), 3) for i in range(nh)]]
+        outs = ip.call_fn(mir.find('geo', D, sig=r'_2: &geo_types::LineString<F>, _3: &geo_types::Polygon<F>'), [('e',), Ref(lambda ls=ls: ls), Ref(lambda poly=poly: poly)], z3.BoolVal(True))
+        want = dist(None, [ls, poly[0]])
+        if nh > 0:
+            want = z3.If(rcc(None, [poly[0], ls[0][0]]), zmin([dist(None, [ls, h]) for h in poly[1]]), want)
+        want = z3.If(I(inter, tag), T.const(0), want)
+        npaths += finish(tag, outs, want, vals, ip)
+    # LineString - LineString
+    tag = 'lsls'
+    vals, inter, cont, uf, dist, lsd, rcc = world(tag)
+    ip = Interp(mir, T, EXTRA, uf)
+    a_, b_ = ring('LSA', 3), ring('LSB', 3)
+    outs = ip.call_fn(mir.find('geo', D, sig=r'_2: &geo_types::LineString<F>, _3: &geo_types::LineString<F>'), [('e',), Ref(lambda: a_), Ref(lambda: b_)], z3.BoolVal(True))
+    npaths += finish(tag, outs, z3.If(I(inter, tag), T.const(0), dist(None, [a_, b_])), vals, ip)
+    st, info, model = check_unsat('distance_dispatch_points_lines_polygons', assume + [z3.Or(bad)])
+    return dict(theory='Real + Bool; geometry parts opaque; nested distances symmetric uninterpreted values', functions=['Distance<F,&Point,&Polygon>', 'Distance<F,&Line,&Line>', 'Distance<F,&Line,&LineString>', 'Distance<F,&Line,&Polygon>', 'Distance<F,&LineString,&LineString>', 'Distance<F,&LineString,&Polygon> for Euclidean'], paths=npaths, status=st, info=info, model=None, replay=('polygon_distance', ''))
+
+
 # ---- C05 kernels
 
 @obligation('C05', 'line_determinant_int', 'for ALL integers: Line::determinant() = start.x*end.y - start.y*end.x (the shoelace term)')
